@@ -386,6 +386,56 @@ def main() -> int:
             os.chdir(base)
             app.app.root_path = Path(roots[0])
 
+            # ---- overlapping requests on the same application object (a threaded server): while request 1 is reading its body,
+            # request 2 is served completely.  Request 1 must get the answer it gets alone, and disclose nothing from outside.
+            class HookedInput:
+                def __init__(self, raw, hook):
+                    self.raw, self.hook = raw, hook
+
+                def read(self, n=-1):
+                    self.hook()
+                    return self.raw
+
+            def overlapped(rt1, body1, req2):
+                got = {}
+                raw1 = json.dumps(body1).encode()
+                env1 = {"REQUEST_METHOD": "POST", "PATH_INFO": rt1, "CONTENT_LENGTH": str(len(raw1)),
+                        "wsgi.input": HookedInput(raw1, lambda: app.request(*req2))}
+                try:
+                    out = app.app(env1, lambda st, hd: got.__setitem__("status", int(st.split()[0])))
+                    return got.get("status"), b"".join(out)
+                except BaseException as e:      # noqa
+                    return 500, ("EXC:" + type(e).__name__).encode()
+            os.chdir(base)
+            app.app.root_path = Path(str(base / "root"))
+            real_root = os.path.realpath(base / "root")
+            rootp = str(base / "root")
+            firsts = []
+            for pth in [rootp, rootp + "/", rootp + "/sub/..", "root", "root/.", rootp + "/a.sql", "root/sub/b.sql", rootp + "/sub", "root/sub/deep/..",
+                        str(base), str(base / "outside"), str(base / "outside" / "a.sql"), "root/../outside/a.sql", str(base / "root_sibling" / "a.sql"), "."]:
+                firsts += [("/directory", {"f": pth}), ("/directory", {"d": pth}), ("/script", {"f": pth}), ("/directory", {"f": pth, "d": rootp}),
+                           ("/lineage", {"f": pth})]
+            seconds = [("GET", "/"), ("GET", "/no-such-asset.js"), ("POST", "/script", {"f": rootp + "/a.sql"}), ("POST", "/directory", {"d": rootp}),
+                       ("POST", "/nope", {"f": rootp}), ("POST", "/lineage", {"e": "select 1"}), ("GET", "/index.html")]
+            dist["overlapped_requests"] = 0
+            for rt1, b1 in firsts:
+                alone = app.request("POST", rt1, b1)
+                for r2 in (seconds if not quick else seconds[:: 2] + seconds[1:2]):
+                    st, raw = overlapped(rt1, b1, r2)
+                    ck.count()
+                    dist["overlapped_requests"] += 1
+                    text = raw.decode("utf-8", "replace")
+                    case = {"suite": "overlapped-requests", "root_path": rootp, "request": {"route": rt1, "payload": b1},
+                            "request_served_while_its_body_was_read": list(r2), "answer_alone": [alone[0], alone[1].decode("utf-8", "replace")[:300]],
+                            "answer_overlapped": [st, text[:300]]}
+                    leak = st == 200 and (MARK in text or (rt1 == "/directory" and (lambda j: j is not None and not (os.path.realpath(os.path.join(str(base), j)) + os.sep).startswith(real_root + os.sep))((json.loads(text) or {}).get("id") if text.startswith("{") else None)))
+                    if leak:
+                        case["spec"] = "a request served while another one is in progress must not disclose anything outside the root"
+                        spec_failures.append(case)
+                    elif (st, raw) != alone:
+                        case["spec"] = "the answer to a request does not depend on requests served concurrently by the same application object"
+                        spec_failures.append(case)
+
             # ---- GET ----
             gsegs = ["..", ".", "js", "app.js", "index.html", "manifest.json", "", "static_sib", "secret.txt", "...", "a..b"]
             pinfos = ["/"]
